@@ -250,7 +250,7 @@ FinishTok(s, e) ==
          ELSE IF t[1] = 117 THEN Emit(Maybe(s0), [Form("str", <<>>, <<>>) EXCEPT !.ex = FALSE], e)
          ELSE Syn(s)
     [] tk.k = "tag" ->
-         IF ~NameOk(s, t) THEN Syn(s)
+         IF ~NameOk(s, t) \/ t \in {T_nil, T_true, T_false} THEN Syn(s)      \* a tag is a symbol
          ELSE IF t = T_b THEN Push(s0, Frame("bstrws", p))
          ELSE IF t = T_f THEN Unspec(s)
          ELSE Push(IF Has(t, SLASH) THEN Maybe(s0) ELSE s0, [Frame("tag", p) EXCEPT !.t = t])
@@ -297,16 +297,20 @@ Start(s, ch, e) ==
 Raw(s, ch, e) ==
   LET top == Top(s)  n == Len(s.st)  below == Pop(s) IN
   CASE top.k = "cmt" -> IF ch \in {LF, CR} THEN below ELSE s
-    [] top.k = "str" ->
+    [] top.k = "str" ->      \* top.a = <<n>>: n hex digits of a \u escape read so far (the reader may take up to 8)
+         IF top.a # <<>> /\ ch \in Hex THEN
+            (IF top.a[1] >= 4 THEN [Maybe(s) EXCEPT !.st[n].a = <<top.a[1] + 1>>]
+             ELSE [s EXCEPT !.st[n].a = <<top.a[1] + 1>>])
+         ELSE LET s9 == IF top.a # <<>> THEN [Maybe(s) EXCEPT !.st[n].a = <<>>] ELSE s IN
          IF top.esc THEN
-            (IF ch \in DOMAIN StrEsc THEN [s EXCEPT !.st[n].esc = FALSE, !.st[n].t = Append(@, StrEsc[ch])]
-             ELSE IF ch \in {117, 85} THEN [s EXCEPT !.st[n].esc = FALSE, !.st[n].fv = TRUE]
+            (IF ch \in DOMAIN StrEsc THEN [s9 EXCEPT !.st[n].esc = FALSE, !.st[n].t = Append(@, StrEsc[ch])]
+             ELSE IF ch \in {117, 85} THEN [s9 EXCEPT !.st[n].esc = FALSE, !.st[n].fv = TRUE, !.st[n].a = <<0>>]
              ELSE Syn(s))
-         ELSE IF ch = BS THEN [s EXCEPT !.st[n].esc = TRUE]
+         ELSE IF ch = BS THEN [s9 EXCEPT !.st[n].esc = TRUE]
          ELSE IF ch = DQ THEN
-            (IF top.fv THEN Emit(Maybe(below), [Form("str", <<>>, <<>>) EXCEPT !.ex = FALSE], e)
+            (IF top.fv THEN Emit(Maybe(Pop(s9)), [Form("str", <<>>, <<>>) EXCEPT !.ex = FALSE], e)
              ELSE Emit(below, Form("str", top.t, <<>>), e))
-         ELSE [s EXCEPT !.st[n].t = Append(@, ch)]
+         ELSE [s9 EXCEPT !.st[n].t = Append(@, ch)]
     [] top.k = "regex" ->
          IF top.esc THEN (IF ch = DQ THEN Unspec(s) ELSE [s EXCEPT !.st[n].esc = FALSE])
          ELSE IF ch = BS THEN [s EXCEPT !.st[n].esc = TRUE, !.st[n].fv = TRUE]
@@ -414,7 +418,7 @@ Why(fr) == CASE fr.k \in {"quote", "deref", "unq", "unqs"} -> "quote-like-prefix
              [] fr.k = "tag" -> "tag"
              [] fr.k = "bstrws" -> "byte-string-tag"
              [] fr.k \in Colls -> "collection"
-             [] fr.k \in {"str", "regex", "bstr"} -> IF fr.esc \/ (fr.k = "str" /\ fr.fv) \/ (fr.k = "bstr" /\ fr.t # <<>>)
+             [] fr.k \in {"str", "regex", "bstr"} -> IF fr.esc \/ (fr.k = "str" /\ fr.a # <<>>) \/ (fr.k = "bstr" /\ fr.t # <<>>)
                                                          THEN "string-escape" ELSE "string"
              [] OTHER -> "free-prefix"
 Res(al, forms, free, why) == [al |-> al, forms |-> forms, free |-> free, why |-> why]
